@@ -54,7 +54,9 @@ SnapOK(e) ==
   /\ s.wc = (IF Role = "enc" THEN WorkCountEnc(rate', cfg'.k, cfg'.r) ELSE WorkCountDec(rate', cfg'.k, cfg'.r))
   /\ s.len = s.wc * Blocks(cfg'.sb) /\ s.cap >= s.len
 
-RetOK(e) == e.ret \in last'.allowed
+\* the return value is one of the allowed ones, and an error's Display text is the documented one
+RetOK(e) == /\ e.ret \in last'.allowed
+            /\ ((Has(e, "rettext") /\ "err" \in DOMAIN e.ret /\ NoHugeField(e.ret)) => e.rettext = ErrorText(e.ret))
 
 (***************************************************************************)
 (* C17: a call the specification says needs no more working space than the *)
